@@ -522,6 +522,13 @@ pub fn prefilter_families() -> Vec<PFam> {
         pfam("packed-shadowed-2", vec![b("ab"), b("abc"), b("cd"), b("ef"), b("gh"), b("cde")], false),
         pfam("packed-mask4", vec![b("abcd"), b("wxyz"), b("mnop"), b("qrst"), b("efgh")], false),
         pfam("packed-mask4-overlap", vec![b("abcdab"), b("cdabcd"), b("bcda"), b("dabc"), b("wxyz")], false),
+        pfam("start-mixed-nonascii", vec![b("foo"), "ñandú".as_bytes().to_vec()], false),
+        pfam("start-mixed-nonascii-2", vec!["über".as_bytes().to_vec(), b("unter"), b("um")], false),
+        pfam("start-nonascii-only", vec![vec![0xC3, 0xA9, b't'], vec![0xE2, 0x82, 0xAC]], false),
+        pfam("packed-nonascii", vec![vec![0xE9, b't', 0xE9], vec![b'n', b'a', 0xEF, b'v', b'e'], vec![0xFC, b'b', b'e', b'r'], vec![b'z', b'z', 0x80, b'z'], vec![0xFF, 0xFE, b'q']], false),
+        pfam("rare-nonascii", vec![vec![b'e', 0xFF], vec![b' ', 0xFF], vec![b't', 0xFF, b'e']], false),
+        pfam("ci-rare-offset", vec![b("aq"), b("bbbbq"), b("ccq")], true),
+        pfam("ci-rare-offset-2", vec![b("zA"), b("eeeZa"), b("ttza")], true),
         pfam("ci-start", vec![b("ab"), b("ac")], true),
         pfam("ci-start2", vec![b("ab"), b("Cd")], true),
         pfam("ci-rare", vec![b("ez"), b(" Z"), b("Tz")], true),
